@@ -87,6 +87,16 @@ def plan(tier, seed):
                     for ts in ts_list[:2]:
                         yield ("dt", key, text + " " + ctext, (d.year, d.month, d.day), (h, mi), ts)
                         yield ("td", key, ctext + " " + text, (d.year, d.month, d.day), (h, mi), ts)
+        # the valid notation straight after a look-alike in which ONE blank is an unmatched character ('05.03.2019@09:30', '23 April_2018'):
+        # what an earlier text looked like between its tokens must not decide how this one is read
+        for d in bdates:
+            for key, text in notations(d):
+                ctext, h, mi = CLOCKS[0]
+                for full, hm in ((text, None), (text + " " + ctext, (h, mi))):
+                    for i, ch in enumerate(full):
+                        if ch == " ":
+                            for junk in "@_":
+                                yield ("after:" + full[:i] + junk + full[i + 1 :], key, full, (d.year, d.month, d.day), hm, ts_list[0])
 
     space = {"dates": len(dates), "notations": 12, "reference_times": len(ts_list), "boundary_dates_for_clock_clause": len(bdates), "clock_strings": len(CLOCKS)}
     return {"space": space, "cases": gen(), "chunk": 256, "hash_distinct": tier == "quick"}
@@ -98,6 +108,12 @@ def run_case(case):
     if key in NAMED and military_ambiguous(y):
         return {"o": "excluded", "skip": "month-name notation with a year that reads as hh:mm, mm % 5 == 0 (documented military-time ambiguity)", "nt": False}
     exp = T(y, m, d) if hm is None else T(y, m, d, hm[0], hm[1])
+    if kind.startswith("after:"):
+        try:
+            parse(kind[6:], ts_s)
+        except Exception:
+            pass  # what the look-alike itself does is C01's business
+        kind = "after_lookalike"
     got = res_obs(parse(text, ts_s))
     if hm is not None and hm[1] is None and got is not None and got[0] == "T" and got[5] == 0:
         got = got[:5] + (None,) + got[6:]  # '8 uhr' may legitimately carry minute 0 or no minute
